@@ -143,6 +143,23 @@ def ranges_in_history(spec):
     return len(f) == 5 and (f[3] != "-" or any(st.count(",") == 3 and not st.endswith(",-") for st in f[4].split("|")))
 
 
+def line_breaks_in_history(spec):
+    """Does some version of the document in the history contain a line break?"""
+    f = spec.split(" ")
+    if len(f) != 5:
+        return False
+    text = b"" if f[2] == "-" else bytes.fromhex(f[2])
+    if b"\n" in text:
+        return True
+    for st in f[4].split("|"):
+        if st.count(",") != 3:
+            continue
+        text = apply_edit(text, st)
+        if b"\n" in text:
+            return True
+    return False
+
+
 def point_col(text, pos):
     """column (bytes since the last line break) of byte offset pos"""
     return pos - (text.rfind(b"\n", 0, pos) + 1)
@@ -397,7 +414,10 @@ def run(ctx):
                   "column_token_grammar": column_token_grammar(lang),
                   "tree_diff": getattr(ctx, "treediff", {}).get(cid, "?"),
                   "edit_shifts_columns": some_edit_shifts_columns(spec),
-                  "ranges_in_history": ranges_in_history(spec)}
+                  "ranges_in_history": ranges_in_history(spec),
+                  # both causes need more than one line (B: a multi-line repeat node; C: an edit whose ends lie on
+                  # different rows): a stale column token in a history WITHOUT any line break is another defect
+                  "line_breaks_in_history": line_breaks_in_history(spec)}
             is_known = any(k.get("status") == "known" and match_fp(k.get("match", {}), fp) for k in ctx.known)
             if os.environ.get("C01_DUMP_FP"):  # debugging aid: every judge failure's fingerprint, one JSON per line
                 open(os.environ["C01_DUMP_FP"], "a").write(json.dumps({"case": cid, "known": is_known, "fp": fp, "spec": spec}) + "\n")
@@ -416,7 +436,8 @@ def run(ctx):
                    "edit_inside_character": edit_inside_character(spec),
                    "ranges_in_play": last_step_facts(spec)[0], "edit_changes_line_breaks": last_step_facts(spec)[1],
                    "column_token_grammar": column_token_grammar(lang), "tree_diff": getattr(ctx, "treediff", {}).get(cid, "?"),
-                   "edit_shifts_columns": some_edit_shifts_columns(spec), "ranges_in_history": ranges_in_history(spec)}
+                   "edit_shifts_columns": some_edit_shifts_columns(spec), "ranges_in_history": ranges_in_history(spec),
+                   "line_breaks_in_history": line_breaks_in_history(spec)}
             if not any(k.get("status") == "known" and match_fp(k.get("match", {}), fpr) for k in ctx.known):
                 relex_unknown += 1
             ctx.violation("judge", "hypothesis LexLocal fails on the real lexer: " + kv.get("relex_note", "").replace("_", " "),
